@@ -383,7 +383,7 @@ REFUSALS = [
     ("query_ast_visitor", "get_as_ROOT", "last-else-raise", "unknown terminal shape"),
     ("query_ast_visitor", "get_rep_value", "guard-raise:cpp_value", "a value was expected"),
     (None, "get_ttree_type", "guard-raise:cpp_sequence", "nested data structures in a column"),
-    (None, "determine_type_mf", "guard-raise:base_types", "method call on a number"),
+    (None, "determine_type_mf", "guard-member:double,float,int", "method call on a number"),
     (None, "_is_format_request", "guard-raise:ast.Call", "query does not start with a call"),
     (None, "getAttribute", "first-raise", "templated getAttribute"),
     (None, "process_metadata", "loop-else-raise", "unknown metadata type"),
@@ -440,6 +440,17 @@ def check_refusals(col, repo: Repo, m):
                 if isinstance(r, ast.Raise):
                     if any(needle in src(t) for t, _ in guards(f.node, r, pm)):
                         ok = True
+        elif how.startswith("guard-member:"):
+            # the raise stands under "<something> is one of these constants" (a list, a tuple, an or-chain of ==, a named table: alike)
+            from sa.props._tr import const_membership, deep
+            want_c = set(how.split(":", 1)[1].split(","))
+            pm = parent_map(f.node)
+            for r in walk_no_nested(f.node):
+                if isinstance(r, ast.Raise):
+                    for t, tr_ in guards(f.node, r, pm):
+                        cm = const_membership(deep(f.node, t)) if tr_ else None
+                        if cm is not None and cm[1] == want_c:
+                            ok = True
         elif how.startswith("guard-atom:"):
             # the named test itself (an atom of the closed guard set) holds where the raise stands
             needle = how.split(":", 1)[1]
